@@ -215,7 +215,7 @@ def run_isolated(module, doc):
         try:
             os.close(read_fd)
             try:
-                payload = ('ok', module.execute(doc).to_wire())
+                payload = ('ok', _execute(module, doc).to_wire())
             except HarnessError as exc:
                 payload = ('harness', str(exc))
             except RunTimeout:
@@ -275,6 +275,169 @@ def call_isolated(func, *args):
     return data
 
 
+# --------------------------------------------------------------------------------------
+# histories of runs: the same run alone in a pristine process vs. after other runs
+# --------------------------------------------------------------------------------------
+
+RUNSEQ = 'runseq'
+
+
+def _execute(module, doc):
+    module = getattr(module, 'module', module)      # a RunSeq wrapper stands for its module
+    if doc.get('kind') == RUNSEQ:
+        return execute_runseq(module, doc)
+    return module.execute(doc)
+
+
+def _outcome_of(module, doc, in_history=False):
+    """(digest, violation signatures) of one run, executed the way a batch executes it.  Inside a history a module
+    may isolate fewer runs (history_isolation): only those that exercise a listed shared-state finding."""
+    isolate = getattr(module, 'needs_isolation', None)
+    if in_history:
+        isolate = getattr(module, 'history_isolation', isolate)
+    if isolate is not None and isolate(doc):
+        res = run_isolated(module, doc)
+    else:
+        res = module.execute(doc)
+    return res.digest(), sorted(v['sig'] for v in res.violations), res.sim_events, res.steps
+
+
+def _outcomes_in_sequence(module, docs):
+    return [_outcome_of(module, doc, True) for doc in docs]
+
+
+def _doc_subject(doc):
+    """The class / channel a run is about (for labels and for grouping runs into histories)."""
+    def strings(value, depth=0):
+        if isinstance(value, str):
+            yield value
+        elif isinstance(value, (list, tuple)) and depth < 3:
+            for item in value[:4]:
+                for text in strings(item, depth + 1):
+                    yield text
+
+    first = None
+    for key in ('cls', 'channel', 'subject', 'subjects'):
+        for text in strings(doc.get(key)):
+            if text.startswith('cryptoparser.'):
+                return text
+            if first is None and text and len(text) < 80:
+                first = text
+    return first or '?'
+
+
+def doc_label(doc):
+    return '%s/%s' % (doc.get('kind', '?'), _doc_subject(doc))
+
+
+def execute_runseq(module, doc):
+    """One history of runs.  Every run of the history is executed twice: alone in a child forked from this
+    (pristine) process, and in one child that executes the whole history in order, as a long-lived process would.
+    Whatever a run records (objects parsed, bytes composed, texts serialised, counts) must not depend on the runs
+    before it: the library documents no state that survives a call.  Runs that the property's own machinery
+    isolates (because they exercise a listed shared-state finding) are isolated in the history as well."""
+    res = Result()
+    docs = doc['docs']
+    alone = [call_isolated(_outcome_of, module, item) for item in docs]
+    together = call_isolated(_outcomes_in_sequence, module, docs)
+    for position, (item, one, other) in enumerate(zip(docs, alone, together)):
+        res.event('run', position, doc_label(item), one[0], other[0])
+        res.sim_events += one[2]
+        res.steps += one[3]
+        res.stats['runseq.runs'] += 1
+        if one[:2] != other[:2]:
+            res.stats['runseq.differs'] += 1
+            res.violation(
+                (module.PROPERTY, 'depends-on-earlier-runs', doc_label(item)), 'depends-on-earlier-runs',
+                'run %d of the history (%s) records digest %s / violations %s when executed alone in a pristine '
+                'process, and digest %s / violations %s after the %d runs before it in one process' % (
+                    position, doc_label(item), one[0], one[1][:3], other[0], other[1][:3], position))
+    res.sched_sig = (RUNSEQ, len(docs), tuple(sorted({doc_label(item) for item in docs}))[:6])
+    res.nontrivial = len(docs) > 1
+    return res
+
+
+class RunSeq(object):
+    """Module-like wrapper: generate() draws a history of the wrapped module's runs (biased towards runs about
+    the same protocol family, where shared state would live), execute() is execute_runseq."""
+
+    def __init__(self, module, lengths=(8, 16, 32, 48)):
+        self.module = module
+        self.PROPERTY = module.PROPERTY
+        self.__name__ = module.__name__
+        self.lengths = lengths
+
+    @staticmethod
+    def family(doc):
+        label = _doc_subject(doc)
+        if label.startswith('cryptoparser.'):
+            return label.split('.')[1]
+        return label.split('_')[0]
+
+    def generate(self, rng, index, tier, extra):
+        # drawn in a forked child: senders validate what they compose with the library's own parsers, and that
+        # must not touch the state of the process the history's runs are forked from
+        return call_isolated(self._generate, rng, index, tier, extra)
+
+    def _generate(self, rng, index, tier, extra):  # pylint: disable=unused-argument
+        length = rng.choice(self.lengths)
+        docs = []
+        theme = None
+        themed = rng.random() < 0.7
+        # shared state lives where runs touch the same classes: most histories are about one class, or about the
+        # classes of one module (this process is a forked child: restricting the generators here is local)
+        from simverif import corpus
+        paths = corpus.class_paths()
+        focus = rng.random()
+        if paths and focus < 0.3:
+            corpus._FOCUS = {rng.choice(paths)}  # pylint: disable=protected-access
+        elif paths and focus < 0.65:
+            module_name = rng.choice(paths).rsplit('.', 1)[0]
+            corpus._FOCUS = {path for path in paths if path.rsplit('.', 1)[0] == module_name}  # pylint: disable=protected-access
+        attempts = 0
+        while len(docs) < length and attempts < length * 8:
+            attempts += 1
+            sub = random.Random(rng.getrandbits(64))
+            cand = self.module.generate(sub, rng.randrange(1 << 30), tier, extra)
+            if cand.get('kind') == RUNSEQ:
+                continue
+            if themed and theme is not None and self.family(cand) != theme and rng.random() < 0.8:
+                continue
+            if theme is None:
+                theme = self.family(cand)
+            docs.append(cand)
+        return {'kind': RUNSEQ, 'docs': docs}
+
+    def execute(self, doc):
+        return execute_runseq(self.module, doc)
+
+
+def shrink_runseq(module, doc, sig, budget):
+    doc = dict(doc)
+    doc['docs'] = ddmin_list(doc['docs'], lambda cand: bool(cand) and has_sig(module, dict(doc, docs=cand), sig), budget)
+    return doc
+
+
+def run_history_batch(module, seed, tier, n_histories, wall_budget, extra=None, lengths=(8, 16, 32, 48)):
+    """A batch of run histories, on its own fork pool (whose workers only ever fork children to execute runs, so
+    they stay as pristine as the process that started the batch)."""
+    wrapper = RunSeq(module, lengths)
+    _WRAPPERS[module.__name__] = wrapper
+    return run_batch(wrapper, seed, tier, n_histories, wall_budget, extra, chunk=1, first_index=HISTORY_FIRST_INDEX)
+
+
+HISTORY_BUDGET = {'quick': (160, 150.0), 'thorough': (6000, 1500.0)}
+
+
+def history_batch(module, seed, tier, extra=None, scale=1.0, lengths=(8, 16, 32, 48)):
+    count, wall = HISTORY_BUDGET[tier]
+    return run_history_batch(module, seed, tier, max(16, int(count * scale)), wall, extra, lengths)
+
+
+_WRAPPERS = {}
+HISTORY_FIRST_INDEX = 10 ** 9      # run indices of histories: disjoint from those of ordinary runs
+
+
 def _alarm_handler(signum, frame):  # pylint: disable=unused-argument
     raise RunTimeout()
 
@@ -289,9 +452,9 @@ def guarded_execute(module, doc):
     signal.alarm(RUN_WALL_LIMIT)
     try:
         isolate = getattr(module, 'needs_isolation', None)
-        if isolate is not None and isolate(doc):
+        if doc.get('kind') != RUNSEQ and isolate is not None and isolate(doc):
             return run_isolated(module, doc)
-        return module.execute(doc)
+        return _execute(module, doc)
     except RunTimeout:
         res = Result()
         res.violation((module.PROPERTY, 'hang', doc.get('kind', '?'), doc.get('cls', doc.get('channel', '?'))),
@@ -335,7 +498,9 @@ def _run_digest_int(index, res):
 
 def _run_chunk(args):
     mod_name, seed, tier, start, stop, deadline, extra = args
-    module = importlib.import_module(mod_name)
+    module = _WRAPPERS.get(mod_name) if start >= HISTORY_FIRST_INDEX else None
+    if module is None:
+        module = importlib.import_module(mod_name)
     out = ChunkOut()
     for index in range(start, stop):
         if time.time() > deadline:
@@ -741,7 +906,10 @@ def report_and_exit(module, batch, seed, tier, coverage, assumptions, level, beg
             continue
         budget = ShrinkBudget()
         try:
-            minimised = module.shrink(violation['doc'], violation['sig'], budget)
+            if violation['doc'].get('kind') == RUNSEQ:
+                minimised = shrink_runseq(module, violation['doc'], violation['sig'], budget)
+            else:
+                minimised = module.shrink(violation['doc'], violation['sig'], budget)
         except Exception:  # shrinking is best-effort; fall back to the original schedule
             minimised = violation['doc']
         if not has_sig(module, minimised, violation['sig']):
